@@ -15,7 +15,7 @@ use std::collections::BTreeSet;
 use std::sync::atomic::{AtomicU64, Ordering};
 use std::sync::Arc;
 
-pub const COUNTERS: &[&str] = &["positions", "programs", "phases_iterated", "next_calls", "len_reads", "programs_with_removal", "programs_with_ep_removal", "programs_with_promotion_position", "tolerated_same_source_dest_yields", "mask_alphabet_max"];
+pub const COUNTERS: &[&str] = &["positions", "programs", "phases_iterated", "next_calls", "len_reads", "programs_with_removal", "programs_with_ep_removal", "programs_with_promotion_position", "tolerated_same_source_dest_yields", "mask_alphabet_max", "adaptor_checks"];
 
 #[derive(Clone, Copy, PartialEq, Eq, Debug)]
 pub enum Removal {
@@ -29,6 +29,9 @@ pub struct Program {
     pub phases: Vec<Option<u64>>,
     /// a removal issued between two exhausted phases: (number of phases before it, removal)
     pub late: Option<(usize, Removal)>,
+    /// the late removal is issued AFTER set_iterator_mask of its phase (before the first next()),
+    /// not before it
+    pub late_after_mask: bool,
 }
 #[derive(Clone, Debug)]
 pub struct PhaseObs {
@@ -40,6 +43,11 @@ pub struct PhaseObs {
 
 /// Execute a program on the real generator.
 pub fn execute(b: &Board, prog: &Program) -> Vec<PhaseObs> {
+    execute_mode(b, prog, true)
+}
+/// `observe` = read len() and size_hint() before every next(); false = never call them (a caller that
+/// just iterates: internal bookkeeping that a len() call happens to refresh stays stale)
+pub fn execute_mode(b: &Board, prog: &Program, observe: bool) -> Vec<PhaseObs> {
     let mut g = MoveGen::new_legal(b);
     for r in prog.removals.iter() {
         match r {
@@ -51,8 +59,9 @@ pub fn execute(b: &Board, prog: &Program) -> Vec<PhaseObs> {
     }
     let mut out = vec![];
     for (pi, ph) in prog.phases.iter().enumerate() {
-        if let Some((at, r)) = &prog.late {
-            if *at == pi {
+        let late_now = matches!(&prog.late, Some((at, _)) if *at == pi);
+        let mut apply_late = |g: &mut MoveGen| {
+            if let Some((_, r)) = &prog.late {
                 match r {
                     Removal::Move(m) => {
                         let _ = g.remove_move(lmove(*m));
@@ -60,22 +69,32 @@ pub fn execute(b: &Board, prog: &Program) -> Vec<PhaseObs> {
                     Removal::Mask(k) => g.remove_mask(BitBoard(*k)),
                 }
             }
+        };
+        if late_now && !prog.late_after_mask {
+            apply_late(&mut g);
         }
         if let Some(k) = ph {
             g.set_iterator_mask(BitBoard(*k));
         }
+        if late_now && prog.late_after_mask {
+            apply_late(&mut g);
+        }
         let mut o = PhaseObs { lens: vec![], hints_ok: true, yielded: vec![], terminated: false };
         for _ in 0..400 {
-            let l = g.len();
-            o.lens.push(l);
-            if g.size_hint() != (l, Some(l)) {
-                o.hints_ok = false;
+            if observe {
+                let l = g.len();
+                o.lens.push(l);
+                if g.size_hint() != (l, Some(l)) {
+                    o.hints_ok = false;
+                }
             }
             match g.next() {
                 Some(m) => o.yielded.push(rmove(m)),
                 None => {
                     o.terminated = true;
-                    o.lens.push(g.len());
+                    if observe {
+                        o.lens.push(g.len());
+                    }
                     break;
                 }
             }
@@ -91,8 +110,14 @@ fn prog_json(p: &RefPos, prog: &Program) -> Value {
         "fen": p.fen(),
         "removals": prog.removals.iter().map(|r| match r { Removal::Move(m) => json!({"remove_move": m.uci()}), Removal::Mask(k) => json!({"remove_mask": format!("{k:#018x}")}) }).collect::<Vec<_>>(),
         "phases": prog.phases.iter().map(|k| match k { Some(k) => json!(format!("{k:#018x}")), None => json!("no set_iterator_mask call") }).collect::<Vec<_>>(),
+        "late_after_mask": prog.late_after_mask,
         "late_removal": match &prog.late { None => Value::Null, Some((at, r)) => json!({"before_phase": at, "removal": match r { Removal::Move(m) => json!({"remove_move": m.uci()}), Removal::Mask(k) => json!({"remove_mask": format!("{k:#018x}")}) }}) },
     })
+}
+fn prog_json_mode(p: &RefPos, prog: &Program, observe: bool) -> Value {
+    let mut v = prog_json(p, prog);
+    v["observe_len"] = json!(observe);
+    v
 }
 fn prog_parse(case: &Value) -> Option<(RefPos, Program)> {
     let p = RefPos::from_fen(case["fen"].as_str()?).ok()?;
@@ -118,7 +143,8 @@ fn prog_parse(case: &Value) -> Option<(RefPos, Program)> {
             Some((at, if let Some(m) = r["remove_move"].as_str() { Removal::Move(RMove::parse_uci(m)?) } else { Removal::Mask(hx(r["remove_mask"].as_str()?)?) }))
         }
     };
-    Some((p, Program { removals, phases, late }))
+    let late_after_mask = case["late_after_mask"].as_bool().unwrap_or(false);
+    Some((p, Program { removals, phases, late, late_after_mask }))
 }
 
 /// Judge the observation of one program against the reference remaining-move set.
@@ -266,7 +292,7 @@ fn programs(p: &RefPos, legal: &[RMove], tier: Tier) -> Vec<Program> {
     let mut out = vec![];
     let flush = Some(!0u64);
     // no removal: fresh iteration, and up to 3 mask phases
-    out.push(Program { removals: vec![], phases: vec![None], late: None });
+    out.push(Program { removals: vec![], phases: vec![None], late: None, late_after_mask: false });
     let mut seqs: Vec<Vec<Option<u64>>> = vec![vec![]];
     for x in ph.iter() {
         seqs.push(vec![*x]);
@@ -282,34 +308,45 @@ fn programs(p: &RefPos, legal: &[RMove], tier: Tier) -> Vec<Program> {
     for s in seqs.iter() {
         let mut phases = s.clone();
         phases.push(flush);
-        out.push(Program { removals: vec![], phases, late: None });
+        out.push(Program { removals: vec![], phases, late: None, late_after_mask: false });
     }
     // one removal: fresh iteration, up to 2 phases
     for r in rem.iter() {
-        out.push(Program { removals: vec![*r], phases: vec![None], late: None });
+        out.push(Program { removals: vec![*r], phases: vec![None], late: None, late_after_mask: false });
         for s in seqs.iter().filter(|s| s.len() <= 2) {
             let mut phases = s.clone();
             phases.push(flush);
-            out.push(Program { removals: vec![*r], phases, late: None });
+            out.push(Program { removals: vec![*r], phases, late: None, late_after_mask: false });
         }
     }
     // a removal issued BETWEEN two exhausted phases: [one mask phase][removal][<=1 mask phase][flush]
     for x in ph.iter() {
         for r in rem.iter() {
-            out.push(Program { removals: vec![], phases: vec![*x, flush], late: Some((1, *r)) });
+            out.push(Program { removals: vec![], phases: vec![*x, flush], late: Some((1, *r)), late_after_mask: false });
             for y in ph.iter().take(6) {
-                out.push(Program { removals: vec![], phases: vec![*x, *y, flush], late: Some((1, *r)) });
+                out.push(Program { removals: vec![], phases: vec![*x, *y, flush], late: Some((1, *r)), late_after_mask: false });
+            }
+        }
+    }
+    // a removal issued right AFTER set_iterator_mask and before the first next() of that phase:
+    // [mask x, removal, iterate][flush] and [mask y iterated][mask x, removal, iterate][flush]
+    for x in ph.iter() {
+        for r in rem.iter() {
+            out.push(Program { removals: vec![], phases: vec![*x, flush], late: Some((0, *r)), late_after_mask: true });
+            out.push(Program { removals: vec![], phases: vec![*x, *x, flush], late: Some((1, *r)), late_after_mask: true });
+            for y in ph.iter().take(4) {
+                out.push(Program { removals: vec![], phases: vec![*y, *x, flush], late: Some((1, *r)), late_after_mask: true });
             }
         }
     }
     // two removals: fresh iteration, up to 1 phase
     for (i, r1) in rem.iter().enumerate() {
         for r2 in rem.iter().skip(i) {
-            out.push(Program { removals: vec![*r1, *r2], phases: vec![None], late: None });
+            out.push(Program { removals: vec![*r1, *r2], phases: vec![None], late: None, late_after_mask: false });
             for s in seqs.iter().filter(|s| s.len() <= 1) {
                 let mut phases = s.clone();
                 phases.push(flush);
-                out.push(Program { removals: vec![*r1, *r2], phases, late: None });
+                out.push(Program { removals: vec![*r1, *r2], phases, late: None, late_after_mask: false });
             }
         }
     }
@@ -337,6 +374,109 @@ pub const ITER_ROOTS: &[&str] = &[
     "rnbqkbnr/1pp1pppp/p7/2PpP3/P6P/1P1P1PP1/8/RNBQKBNR w KQkq d6 0 1",
 ];
 
+/// The provided Iterator methods an implementation may override, on the fresh generator and under
+/// every single mask of the alphabet: count, last, nth(k) for every k (with the rest of the iteration
+/// afterwards), by_ref().take(k) followed by the rest, skip, step_by, fold — each compared with plain
+/// next() iteration of an identically prepared generator.
+fn adaptors(run: &Run, p: &RefPos, b: &Board, legal: &[RMove]) -> u64 {
+    let mut n = 0u64;
+    let mut alphabet: Vec<Option<u64>> = vec![None];
+    alphabet.extend(masks(p, legal, 6).into_iter().map(Some));
+    for mk in alphabet {
+        let make = || {
+            let mut g = MoveGen::new_legal(b);
+            if let Some(k) = mk {
+                g.set_iterator_mask(BitBoard(k));
+            }
+            g
+        };
+        let r = guard::lib(|| {
+            let plain: Vec<RMove> = make().map(rmove).collect();
+            let mut bad: Option<String> = None;
+            let mut note = |s: String| {
+                if bad.is_none() {
+                    bad = Some(s);
+                }
+            };
+            if make().count() != plain.len() {
+                note(format!("count() = {} but plain iteration yields {} moves", make().count(), plain.len()));
+            }
+            if make().last().map(rmove) != plain.last().copied() {
+                note("last() differs from the last move of plain iteration".into());
+            }
+            if make().fold(0usize, |a, _| a + 1) != plain.len() {
+                note("fold() visits a different number of moves".into());
+            }
+            // nth / skip after a few plain next() calls (cursor inside an entry, e.g. a promotion entry)
+            for k0 in 1..=plain.len().min(5) {
+                for k in 0..=(plain.len() - k0 + 1) {
+                    let mut g = make();
+                    for _ in 0..k0 {
+                        let _ = g.next();
+                    }
+                    let got = g.nth(k).map(rmove);
+                    let rest: Vec<RMove> = g.take(400).map(rmove).collect();
+                    let want_rest: Vec<RMove> = plain.iter().copied().skip(k0 + k + 1).collect();
+                    if got != plain.get(k0 + k).copied() || rest != want_rest {
+                        note(format!("after {k0} next() calls, nth({k}) = {:?} (plain iteration has {:?} there) and {} moves follow (expected {})", got.map(|m| m.uci()), plain.get(k0 + k).map(|m| m.uci()), rest.len(), want_rest.len()));
+                    }
+                    let mut g = make();
+                    for _ in 0..k0 {
+                        let _ = g.next();
+                    }
+                    let _ = g.nth(k);
+                    let l = g.len();
+                    let left = plain.len().saturating_sub(k0 + k + 1);
+                    if l != left {
+                        note(format!("after {k0} next() calls and nth({k}), len() = {l} but {left} moves are left"));
+                    }
+                }
+            }
+            for k in 0..=plain.len() + 1 {
+                let mut g = make();
+                let got = g.nth(k).map(rmove);
+                if got != plain.get(k).copied() {
+                    note(format!("nth({k}) = {:?}, plain iteration has {:?} there", got.map(|m| m.uci()), plain.get(k).map(|m| m.uci())));
+                }
+                let rest: Vec<RMove> = g.take(400).map(rmove).collect();
+                let want: Vec<RMove> = plain.iter().copied().skip(k + 1).collect();
+                if rest != want {
+                    note(format!("after nth({k}) the rest of the iteration has {} moves, expected {}", rest.len(), want.len()));
+                }
+                let mut g = make();
+                let head: Vec<RMove> = g.by_ref().take(k).map(rmove).collect();
+                let tail: Vec<RMove> = g.take(400).map(rmove).collect();
+                if head.iter().chain(tail.iter()).copied().collect::<Vec<_>>() != plain {
+                    note(format!("by_ref().take({k}) followed by the rest differs from plain iteration"));
+                }
+                if k >= 1 && k <= 5 {
+                    let st: Vec<RMove> = make().step_by(k).take(400).map(rmove).collect();
+                    if st != plain.iter().copied().step_by(k).collect::<Vec<_>>() {
+                        note(format!("step_by({k}) differs from plain iteration"));
+                    }
+                    let sk: Vec<RMove> = make().skip(k).take(400).map(rmove).collect();
+                    if sk != plain.iter().copied().skip(k).collect::<Vec<_>>() {
+                        note(format!("skip({k}) differs from plain iteration"));
+                    }
+                }
+            }
+            (bad, plain.len())
+        });
+        match r {
+            Ok((None, l)) => n += 6 * (l as u64 + 2),
+            Ok((Some(e), _)) => {
+                run.report(Violation::new("C14", "adaptor", "a provided Iterator method disagrees with next()", format!("{e}\n  position {}\n  mask {:?}", p.fen(), mk.map(|k| format!("{k:#018x}"))), json!({"kind": "movegen-adaptor", "fen": p.fen(), "removals": [], "phases": [], "late_removal": Value::Null})));
+                return n;
+            }
+            Err(e) => {
+                run.report(Violation::new("C14", "panic", "", format!("an iterator adaptor panicked: {e}\n  position {}", p.fen()), json!({"kind": "movegen-adaptor", "fen": p.fen(), "removals": [], "phases": [], "late_removal": Value::Null})));
+                return n;
+            }
+        }
+    }
+    n
+}
+
 fn check_position(run: &Run, p: &RefPos, tier: Tier, nprog: &AtomicU64) {
     let b = match guard::lib(|| from_scratch(p)) {
         Ok(Ok(b)) => b,
@@ -346,6 +486,11 @@ fn check_position(run: &Run, p: &RefPos, tier: Tier, nprog: &AtomicU64) {
     let legal = p.legal_moves();
     let progs = programs(p, &legal, tier);
     run.add("positions", 1);
+    let an = adaptors(run, p, &b, &legal);
+    run.add("adaptor_checks", an);
+    if run.has_violation() {
+        return;
+    }
     run.add("programs_with_promotion_position", legal.iter().any(|m| m.promo.is_some()) as u64 * progs.len() as u64);
     run.add("mask_alphabet_max", 0);
     // dense positions have hundreds of thousands of programs: parallel inside the position as well
@@ -353,11 +498,27 @@ fn check_position(run: &Run, p: &RefPos, tier: Tier, nprog: &AtomicU64) {
         .par_chunks(512)
         .map(|chunk| {
             let (mut phases, mut nexts, mut lens, mut withrem, mut withep, mut tol) = (0u64, 0u64, 0u64, 0u64, 0u64, 0u64);
+            let mut blind_nexts = 0u64;
             for prog in chunk {
                 if run.has_violation() {
                     break;
                 }
                 crumb_pos(p, None);
+                // the same program once more without any len() / size_hint() call in between
+                let blind = match guard::lib(|| execute_mode(&b, prog, false)) {
+                    Ok(o) => o,
+                    Err(e) => {
+                        run.report(Violation::new("C14", "panic", "", format!("program panicked (no len() calls): {e}"), prog_json_mode(p, prog, false)));
+                        break;
+                    }
+                };
+                if let Err((clause, shape, detail)) = judge(run, p, &legal, prog, &blind) {
+                    let v = Violation::new("C14", &clause, &format!("{shape}; iterated without len() calls"), format!("{detail}\n  position {}\n  program (no len() / size_hint() calls) {}", p.fen(), prog_json(p, prog)), prog_json_mode(p, prog, false));
+                    if run.report(v) {
+                        break;
+                    }
+                }
+                blind_nexts += blind.iter().map(|o| o.yielded.len() as u64 + 1).sum::<u64>();
                 let obs = match guard::lib(|| execute(&b, prog)) {
                     Ok(o) => o,
                     Err(e) => {
@@ -380,7 +541,7 @@ fn check_position(run: &Run, p: &RefPos, tier: Tier, nprog: &AtomicU64) {
                 withrem += (!prog.removals.is_empty()) as u64;
                 withep += prog.removals.iter().any(|r| matches!(r, Removal::Move(m) if p.is_ep(*m))) as u64;
             }
-            [phases, nexts, lens, withrem, withep, tol]
+            [phases, nexts + blind_nexts, lens, withrem, withep, tol]
         })
         .reduce(|| [0u64; 6], |a, b| [a[0] + b[0], a[1] + b[1], a[2] + b[2], a[3] + b[3], a[4] + b[4], a[5] + b[5]]);
     if run.has_violation() {
@@ -399,7 +560,7 @@ fn check_position(run: &Run, p: &RefPos, tier: Tier, nprog: &AtomicU64) {
     run.transitions.fetch_add(nexts + phases, Ordering::Relaxed);
 }
 
-pub const RULE: &str = "per position (iterator-specific roots: pawn with push and en-passant capture, two capturers, promoting pawns with 1-3 destinations, in check, double check, many movers; plus curated roots and their children): EVERY program of the form [<=2 removals] then [<=3 mask phases] then a full-mask flush, within the bounds (0 removals: <=3 phases (<=2 on dense positions in quick); 1 removal: <=2 phases; 2 removals: <=1 phase; one removal issued BETWEEN two exhausted phases: [phase][removal][<=1 phase]; plus the fresh generator iterated without any mask call). Removals range over remove_move of every legal move, two illegal moves, and remove_mask of every partial mask of the alphabet; masks over {enemy men, complement, full, empty, both back ranks, a file, single destination squares (special moves first)}. Every phase is iterated to exhaustion with len() and size_hint() read before every next() and after None. Oracle: reference remaining-move set (no duplicates, nothing excluded is yielded, everything else under the mask is, len = number still yielded, union = legal minus excluded). states = programs, transitions = next() calls + mask settings. distinct_nontrivial = programs with at least one removal or a partial mask";
+pub const RULE: &str = "per position (iterator-specific roots: pawn with push and en-passant capture, two capturers, promoting pawns with 1-3 destinations, in check, double check, many movers; plus curated roots and their children): EVERY program of the form [<=2 removals] then [<=3 mask phases] then a full-mask flush, within the bounds (0 removals: <=3 phases (<=2 on dense positions in quick); 1 removal: <=2 phases; 2 removals: <=1 phase; one removal issued BETWEEN two exhausted phases: [phase][removal][<=1 phase]; one removal issued right AFTER a set_iterator_mask call and before the first next() of that phase (first or second phase); plus the fresh generator iterated without any mask call). Removals range over remove_move of every legal move, two illegal moves, and remove_mask of every partial mask of the alphabet; masks over {enemy men, complement, full, empty, both back ranks, a file, single destination squares (special moves first)}. Every phase is iterated to exhaustion with len() and size_hint() read before every next() and after None; every program is executed a second time WITHOUT any len() / size_hint() call. Per position also the provided Iterator methods (count, last, fold, nth(k) for every k with the rest of the iteration, by_ref().take(k) + rest, skip, step_by) on the fresh generator and under the first masks of the alphabet, compared with plain next() iteration. Oracle: reference remaining-move set (no duplicates, nothing excluded is yielded, everything else under the mask is, len = number still yielded, union = legal minus excluded). states = programs, transitions = next() calls + mask settings. distinct_nontrivial = programs with at least one removal or a partial mask";
 
 pub fn run(tier: Tier) -> i32 {
     let run = Arc::new(Run::new("C14", tier, COUNTERS));
@@ -455,7 +616,12 @@ pub fn replay(case: &Value) -> i32 {
         Some((p, prog)) => {
             let b = from_scratch(&p).expect("machinery: replay position");
             let legal = p.legal_moves();
-            match guard::lib(|| execute(&b, &prog)) {
+            if case["kind"] == "movegen-adaptor" {
+                adaptors(&run, &p, &b, &legal);
+                return crate::replay_verdict(&run);
+            }
+            let observe = case["observe_len"].as_bool().unwrap_or(true);
+            match guard::lib(|| execute_mode(&b, &prog, observe)) {
                 Ok(obs) => {
                     if let Err((clause, shape, detail)) = judge(&run, &p, &legal, &prog, &obs) {
                         run.report(Violation::new("C14", &clause, &shape, detail, case.clone()));
